@@ -144,6 +144,23 @@ pub fn insert_fields(r: &mut Rng, t: &T, extras: &[T]) -> T {
     }
 }
 
+/// replace random sub-terms of `t` (never the root when `top`) by fresh names bound to them in `defs`
+pub fn outline(r: &mut Rng, t: &T, defs: &mut Env, top: bool) -> T {
+    let inner = match t {
+        T::Opt(x) => T::opt(outline(r, x, defs, false)),
+        T::Vec(x) => T::vec(outline(r, x, defs, false)),
+        T::Rec(fs) => T::Rec(fs.iter().map(|(i, x)| (*i, outline(r, x, defs, false))).collect()),
+        T::Variant(fs) => T::Variant(fs.iter().map(|(i, x)| (*i, outline(r, x, defs, false))).collect()),
+        o => o.clone(),
+    };
+    if !top && !matches!(t, T::Var(_)) && r.coin(1, 3) {
+        let n = format!("O{}_", defs.len());
+        // sometimes through a chain of two names
+        if r.coin(1, 4) { let n2 = format!("O{}x_", defs.len()); defs.push((n.clone(), T::var(&n2))); defs.push((n2, inner)); } else { defs.push((n.clone(), inner)); }
+        T::var(&n)
+    } else { inner }
+}
+
 pub fn generate(thorough: bool, r: &mut Rng, em: &mut Emit) {
     let scale = if thorough { 15 } else { 1 };
     for b in hostile(r) {
@@ -207,6 +224,18 @@ pub fn generate(thorough: bool, r: &mut Rng, em: &mut Emit) {
                     em.stat("expected.inserted-fields");
                     em.case_nt("c02.decode", &[env_sx(&ee4), tys_sx(&tes), hexmsg.clone()], true);
                 }
+            }
+        }
+        {   // the same expected types with random sub-terms (leaves included) given names: the meaning is unchanged, but every
+            // place that looks at an expected type has to see through the name
+            for _ in 0..2 {
+                let mut defs: Env = vec![];
+                let tes: Vec<T> = same.iter().map(|t| outline(r, t, &mut defs, true)).collect();
+                let mut ee5: Env = ee.iter().map(|(n, t)| (n.clone(), outline(r, t, &mut defs, true))).collect();
+                if defs.is_empty() { continue; }
+                ee5.extend(defs);
+                em.stat("expected.outlined");
+                em.case_nt("c02.decode", &[env_sx(&ee5), tys_sx(&tes), hexmsg.clone()], true);
             }
         }
         {   // unrelated expected types
